@@ -1052,5 +1052,184 @@ pub proof fn lemma_bf_prefix_binds_key<C: Ciphersuite>(vk1: Element<C>, msg1: Se
     lemma_enc_el_inj::<C>(vk1, vk2);
 }
 
+// ---------------------------------------------------------------------------------------------------
+// T5c (C03): fewer than t shares determine nothing about the secret.  For evaluation points x_1..x_m (non-zero, m < t), a polynomial f
+// with t coefficients and ANY candidate secret s there is a polynomial g with t coefficients, g(0) = s, that agrees with f at every x_i:
+//      g = f + k * N,   N(x) = prod_i (x - x_i),   k = (s - f(0)) / N(0).
+// (over an abstract field first)
+//@serves C03
+pub proof fn lemma_add_swap22<A: Fld>(a: A::S, b: A::S, c: A::S, d: A::S)
+    ensures A::add(A::add(a, b), A::add(c, d)) == A::add(A::add(a, c), A::add(b, d))
+{
+    A::add_assoc(a, b, A::add(c, d));
+    A::add_assoc(b, c, d);
+    A::add_comm(b, c);
+    A::add_assoc(c, b, d);
+    A::add_assoc(a, c, A::add(b, d));
+}
+
+//@serves C03
+pub proof fn lemma_poly0<A: Fld>(a: Seq<A::S>)
+    requires a.len() >= 1
+    ensures poly::<A>(a, A::zero()) == a[0]
+{
+    lemma_mul_zero::<A>(poly::<A>(a.drop_first(), A::zero()));
+    A::add_zero(a[0]);
+}
+
+// coefficient-wise sum (the longer tail is kept)
+pub open spec fn padd<A: Fld>(a: Seq<A::S>, b: Seq<A::S>) -> Seq<A::S> decreases a.len()
+{ if a.len() == 0 { b } else if b.len() == 0 { a } else { seq![A::add(a[0], b[0])] + padd::<A>(a.drop_first(), b.drop_first()) } }
+
+//@serves C03
+pub proof fn lemma_padd<A: Fld>(a: Seq<A::S>, b: Seq<A::S>, t: A::S)
+    ensures poly::<A>(padd::<A>(a, b), t) == A::add(poly::<A>(a, t), poly::<A>(b, t)),
+        padd::<A>(a, b).len() == if a.len() >= b.len() { a.len() } else { b.len() }
+    decreases a.len()
+{
+    if a.len() == 0 {
+        lemma_zero_add::<A>(poly::<A>(b, t));
+    } else if b.len() == 0 {
+        A::add_zero(poly::<A>(a, t));
+    } else {
+        let ra = a.drop_first(); let rb = b.drop_first(); let p = padd::<A>(a, b);
+        lemma_padd::<A>(ra, rb, t);
+        assert(p.drop_first() =~= padd::<A>(ra, rb));
+        assert(p[0] == A::add(a[0], b[0]));
+        let pa = poly::<A>(ra, t); let pb = poly::<A>(rb, t);
+        // (pa + pb) * t == pa t + pb t
+        A::mul_comm(A::add(pa, pb), t); A::distrib(t, pa, pb); A::mul_comm(t, pa); A::mul_comm(t, pb);
+        lemma_add_swap22::<A>(a[0], b[0], A::mul(pa, t), A::mul(pb, t));
+    }
+}
+
+// coefficient-wise multiple
+pub open spec fn pscale<A: Fld>(k: A::S, a: Seq<A::S>) -> Seq<A::S> decreases a.len()
+{ if a.len() == 0 { Seq::empty() } else { seq![A::mul(k, a[0])] + pscale::<A>(k, a.drop_first()) } }
+
+//@serves C03
+pub proof fn lemma_pscale<A: Fld>(k: A::S, a: Seq<A::S>, t: A::S)
+    ensures poly::<A>(pscale::<A>(k, a), t) == A::mul(k, poly::<A>(a, t)), pscale::<A>(k, a).len() == a.len()
+    decreases a.len()
+{
+    if a.len() == 0 {
+        lemma_mul_zero::<A>(k);
+    } else {
+        let ra = a.drop_first(); let q = pscale::<A>(k, a);
+        lemma_pscale::<A>(k, ra, t);
+        assert(q.drop_first() =~= pscale::<A>(k, ra));
+        assert(q[0] == A::mul(k, a[0]));
+        let pa = poly::<A>(ra, t);
+        A::distrib(k, a[0], A::mul(pa, t));
+        A::mul_assoc(k, pa, t);
+    }
+}
+
+// N(0) = prod_i (0 - x_i) != 0 for non-zero x_i
+//@serves C03
+pub proof fn lemma_prodsub0_nonzero<A: Fld>(ys: Seq<A::S>)
+    requires notin::<A>(ys, A::zero())
+    ensures prodsub::<A>(ys, A::zero()) != A::zero()
+    decreases ys.len()
+{
+    A::one_ne_zero();
+    if ys.len() > 0 {
+        let r = ys.drop_last();
+        assert(notin::<A>(r, A::zero())) by { assert forall|j: int| 0 <= j < r.len() implies r[j] != A::zero() by { assert(r[j] == ys[j]); } }
+        lemma_prodsub0_nonzero::<A>(r);
+        assert(ys.last() == ys[ys.len() - 1]);
+        lemma_sub_nonzero::<A>(A::zero(), ys.last());
+        lemma_nozero::<A>(prodsub::<A>(r, A::zero()), crate::vfield::sub::<A>(A::zero(), ys.last()));
+    }
+}
+
+//@serves C03
+pub proof fn lemma_any_secret_consistent<A: Fld>(xs: Seq<A::S>, f: Seq<A::S>, s: A::S) -> (g: Seq<A::S>)
+    requires notin::<A>(xs, A::zero()), xs.len() < f.len()
+    ensures g.len() == f.len(), g[0] == s, forall|j: int| 0 <= j < xs.len() ==> poly::<A>(g, #[trigger] xs[j]) == poly::<A>(f, xs[j])
+{
+    let nn = ncoef::<A>(xs);
+    let n0 = prodsub::<A>(xs, A::zero());
+    let d = crate::vfield::sub::<A>(s, f[0]);
+    let k = A::mul(d, A::inv(n0));
+    let kn = pscale::<A>(k, nn);
+    let g = padd::<A>(f, kn);
+    lemma_ncoef::<A>(xs, A::zero());
+    lemma_prodsub0_nonzero::<A>(xs);
+    lemma_pscale::<A>(k, nn, A::zero());
+    lemma_padd::<A>(f, kn, A::zero());
+    lemma_poly0::<A>(f); lemma_poly0::<A>(g);
+    // g(0) = f0 + (d * inv n0) * n0 = f0 + d = s
+    A::mul_assoc(d, A::inv(n0), n0); A::mul_comm(A::inv(n0), n0); A::mul_inv(n0); A::mul_one(d);
+    lemma_sub_add_cancel::<A>(s, f[0]);
+    assert forall|j: int| 0 <= j < xs.len() implies poly::<A>(g, #[trigger] xs[j]) == poly::<A>(f, xs[j]) by {
+        lemma_ncoef::<A>(xs, xs[j]);
+        lemma_prodsub_root::<A>(xs, j);
+        lemma_pscale::<A>(k, nn, xs[j]);
+        lemma_padd::<A>(f, kn, xs[j]);
+        lemma_mul_zero::<A>(k);
+        A::add_zero(poly::<A>(f, xs[j]));
+    }
+    g
+}
+
+// T5c for identifiers: the shares f(id_1), .., f(id_m) of m < t = |f| participants are consistent with EVERY secret s
+//@serves C03
+pub proof fn thm_subthreshold_undetermined<C: Ciphersuite>(ids: Seq<Identifier<C>>, f: Seq<Scalar<C>>, s: Scalar<C>) -> (g: Seq<Scalar<C>>)
+    requires ids.len() < f.len(), forall|k: int| 0 <= k < ids.len() ==> (#[trigger] ids[k]).0.0 != s0::<C>()
+    ensures g.len() == f.len(), g[0] == s,
+        forall|k: int| 0 <= k < ids.len() ==> poly::<AL<C>>(g, (#[trigger] ids[k]).0.0) == poly::<AL<C>>(f, ids[k].0.0)
+{
+    let xs = scalars::<C>(ids);
+    assert(notin::<AL<C>>(xs, s0::<C>())) by { assert forall|j: int| 0 <= j < xs.len() implies xs[j] != s0::<C>() by { assert(xs[j] == ids[j].0.0); } }
+    let g = lemma_any_secret_consistent::<AL<C>>(xs, f, s);
+    assert forall|k: int| 0 <= k < ids.len() implies poly::<AL<C>>(g, (#[trigger] ids[k]).0.0) == poly::<AL<C>>(f, ids[k].0.0) by { assert(xs[k] == ids[k].0.0); }
+    g
+}
+
+// hence no function of fewer than t shares -- Lagrange interpolation of them in particular -- yields the group secret: whatever value v
+// it outputs, there are two sharings with the same t coefficients' worth of freedom, identical on the observed shares, with different
+// secrets, and one whose secret is not v
+//@serves C03
+pub proof fn thm_subthreshold_no_reconstruction<C: Ciphersuite>(ids: Seq<Identifier<C>>, f: Seq<Scalar<C>>, v: Scalar<C>)
+    requires ids.len() < f.len(), forall|k: int| 0 <= k < ids.len() ==> (#[trigger] ids[k]).0.0 != s0::<C>()
+    ensures
+        exists|g: Seq<Scalar<C>>| #![trigger g.len()] g.len() == f.len() && g[0] != f[0]
+            && forall|k: int| 0 <= k < ids.len() ==> poly::<AL<C>>(g, (#[trigger] ids[k]).0.0) == poly::<AL<C>>(f, ids[k].0.0),
+        exists|g: Seq<Scalar<C>>| #![trigger g.len()] g.len() == f.len() && g[0] != v
+            && forall|k: int| 0 <= k < ids.len() ==> poly::<AL<C>>(g, (#[trigger] ids[k]).0.0) == poly::<AL<C>>(f, ids[k].0.0),
+{
+    // x + 1 != x
+    FF::<C>::ax_one_ne_zero();
+    let f1 = sadd::<C>(f[0], s1::<C>()); let v1 = sadd::<C>(v, s1::<C>());
+    if f1 == f[0] { FF::<C>::ax_add_zero(f[0]); lemma_add_cancel::<AL<C>>(f[0], s1::<C>(), s0::<C>()); }
+    if v1 == v { FF::<C>::ax_add_zero(v); lemma_add_cancel::<AL<C>>(v, s1::<C>(), s0::<C>()); }
+    let g1 = thm_subthreshold_undetermined::<C>(ids, f, f1);
+    let g2 = thm_subthreshold_undetermined::<C>(ids, f, v1);
+    assert(g1.len() == f.len() && g1[0] != f[0]);
+    assert(g2.len() == f.len() && g2[0] != v);
+}
+
+// ... in the shape of `reconstruct`'s contract: the value interpolated from fewer than t = |f| key packages is the constant term of SOME
+// polynomial through those shares only by accident -- there is a sharing g with exactly the same packages' shares and another secret
+//@serves C03
+pub proof fn thm_interpolating_too_few_is_not_the_secret<C: Ciphersuite>(kps: Seq<KeyPackage<C>>, f: Seq<Scalar<C>>)
+    requires kps.len() < f.len(),
+        forall|k: int| 0 <= k < kps.len() ==> (#[trigger] kps[k]).identifier.0.0 != s0::<C>() && kps[k].signing_share.0.0 == poly::<AL<C>>(f, kps[k].identifier.0.0),
+    ensures exists|g: Seq<Scalar<C>>| #![trigger g.len()] g.len() == f.len()
+        && g[0] != spec_interpolate0::<C>(kps, sorted_seq(kp_ids::<C>(kps).to_set()), kps.len() as nat)
+        && forall|k: int| 0 <= k < kps.len() ==> (#[trigger] kps[k]).signing_share.0.0 == poly::<AL<C>>(g, kps[k].identifier.0.0)
+{
+    let ids = kp_ids::<C>(kps);
+    let v = spec_interpolate0::<C>(kps, sorted_seq(ids.to_set()), kps.len() as nat);
+    FF::<C>::ax_one_ne_zero();
+    let v1 = sadd::<C>(v, s1::<C>());
+    if v1 == v { FF::<C>::ax_add_zero(v); lemma_add_cancel::<AL<C>>(v, s1::<C>(), s0::<C>()); }
+    assert forall|k: int| 0 <= k < ids.len() implies (#[trigger] ids[k]).0.0 != s0::<C>() by { assert(ids[k] == kps[k].identifier); }
+    let g = thm_subthreshold_undetermined::<C>(ids, f, v1);
+    assert forall|k: int| 0 <= k < kps.len() implies (#[trigger] kps[k]).signing_share.0.0 == poly::<AL<C>>(g, kps[k].identifier.0.0) by { assert(ids[k] == kps[k].identifier); }
+    assert(g.len() == f.len() && g[0] != v);
+}
+
 } // verus!
 }
